@@ -10,7 +10,7 @@ from pyvc import arrays as A
 from pyvc import terms as T
 from pyvc.ctx import cur
 from pyvc.interp import PyRaise
-from pyvc.values import Arr, LocalObj, ObjRef
+from pyvc.values import Arr, LocalObj, ObjRef, Unsupported
 from pyvc.vc import Task
 from contracts import ghost as G
 from contracts import view_spec as V
@@ -38,7 +38,12 @@ def get_fn(interp, module, cls, name):
     mod = interp.load_module(module)
     k = mod.ns[cls]
     f = k.ns[name]
-    interp.inline_only.add(f.qualname)
+    inner = f
+    while not hasattr(inner, "qualname") and hasattr(inner, "fn"):  # e.g. wrapped by functools.lru_cache
+        inner = inner.fn
+    if not hasattr(inner, "qualname"):
+        raise Unsupported(f"{cls}.{name} is not a plain function any more ({type(f).__name__})")
+    interp.inline_only.add(inner.qualname)
     return f, k
 
 
@@ -400,4 +405,10 @@ def tasks_admissible():
 
 
 def all_tasks():
-    return tasks_readers() + tasks_step_dynamics() + tasks_admissible()
+    out = tasks_readers() + tasks_step_dynamics() + tasks_admissible()
+    for t in out:
+        # the flow bounds of C17 are stated for the origins of a network: that an origin computes its
+        # flow from its own link's current state (and nothing remembered) is part of it
+        if ".blocks.origins:" in t.name and "C17" not in t.props and "C01" in t.props:
+            t.props = tuple(t.props) + ("C17",)
+    return out
